@@ -26,6 +26,11 @@ CHECKS = {
          'Every enumerated (sequence, failure position, failure kind, driver) case, back-to-back pair, nested transaction and bad-row bulk insert left the tables equal to the before-snapshot (failure) or before+all statements (success), with the handle usable and no connection in use afterwards. The fault space per sequence is finite and is enumerated completely; sequences are bounded in length.',
          'Trusts SQLite as the storage engine under all three drivers (Postgres/MySQL server behaviour is out of reach), the snapshot comparison, and the 5 s usability deadline. Sequences longer than the bound are not explored.',
          'DESIGN.md §3 C14'),
+ 'C05': ('exploration',
+         'reference-router monitor: marker-returning route bodies observed through the CLI wiring (setupRoutes/createHandler/ServeMux) in both modes and compared with a 30-line reference router',
+         'Held on N generated route tables (plus the exhaustive space of <=2 declarations over a small alphabet) x every request path of depth<=3 over a 5-symbol alphabet x 5 methods x both execution modes, plus percent-encoded spellings (exact expectation) and unclean paths (safety half only): the declaration that ran, its parameter bindings and 404s matched the reference.',
+         'Trusts the reference router (c05.go) and the overlay worker that wires the CLI functions the way startServer does (ServeMux + createHandler). Duplicate parameter names in one pattern are not generated.',
+         'DESIGN.md §3 C05'),
 }
 NA = {}
 for p in props:
